@@ -505,7 +505,9 @@ func parentMain(id, tier string) int {
 				// re-execute the recorded case before printing it
 				k := reproduces(exe, path, 3)
 				repro = fmt.Sprintf(" (re-executed from the replay file: failed again %d/3 times)", k)
-				if k < 3 {
+				if replayErrors > 0 {
+					repro += fmt.Sprintf(" -- %d re-execution(s) ended with an error of the harness itself (exit status other than 0 and 1): run `./check replay %s` to see it", replayErrors, path)
+				} else if k < 3 {
 					repro += " -- the case does not fail every time when executed alone in a fresh process: it depends on cases executed earlier in the same process (hidden state) or on nondeterminism of the implementation"
 				}
 			}
@@ -544,8 +546,12 @@ func oneLine(s string, n int) string {
 	return s
 }
 
+// replayErrors counts the re-executions (of the last reproduces call made for the printed violation) that
+// neither failed nor held: the replay itself broke.
+var replayErrors int
+
 func reproduces(exe, path string, times int) int {
-	n := 0
+	n, bad := 0, 0
 	for i := 0; i < times; i++ {
 		cmd := exec.Command(exe, "replay", path)
 		cmd.Stdout = nil
@@ -553,7 +559,12 @@ func reproduces(exe, path string, times int) int {
 		err := cmd.Run()
 		if ee, ok := err.(*exec.ExitError); ok && ee.ExitCode() == 1 {
 			n++
+		} else if err != nil {
+			bad++
 		}
+	}
+	if times > 1 {
+		replayErrors = bad
 	}
 	return n
 }
